@@ -270,6 +270,97 @@ class DictV:
         return self.keyobj.get(nk, nk)
 
 
+class HazardList(list):
+    """a list of hazards of one kind that also feeds the process-wide log (main.py checks that every kind met in a run
+    was consumed by the rule or is reported)"""
+
+    def __init__(self, kind):
+        list.__init__(self)
+        self.kind = kind
+
+    def append(self, item):
+        list.append(self, item)
+        rel = item[1] if self.kind in ('dtype', 'underflow') else CUR_REL[0]
+        HAZARD_LOG.append((self.kind, item[0], rel, item))
+
+
+def _hazard_property(kind):
+    attr = '_hz_' + kind
+
+    def getter(self):
+        return getattr(self, attr)
+
+    def setter(self, value):
+        hl = HazardList(kind)
+        list.extend(hl, value)
+        setattr(self, attr, hl)
+    return property(getter, setter)
+
+
+CUR_REL = [None]        # file of the statement being interpreted (for hazards recorded below the frame level)
+
+
+class KwSeen(dict):
+    """keyword arguments handed to a library model: remembers which ones the model looked at, so that an argument
+    the model does not know (np.max(..., initial=0.)) stops the analysis instead of being dropped silently"""
+
+    def __init__(self, d):
+        dict.__init__(self, d)
+        self.seen = set()
+
+    def get(self, k, d=None):
+        self.seen.add(k)
+        return dict.get(self, k, d)
+
+    def __getitem__(self, k):
+        self.seen.add(k)
+        return dict.__getitem__(self, k)
+
+    def __contains__(self, k):
+        self.seen.add(k)
+        return dict.__contains__(self, k)
+
+    def pop(self, k, *d):
+        self.seen.add(k)
+        return dict.pop(self, k, *d)
+
+    def _all(self):
+        self.seen.update(dict.keys(self))
+
+    def items(self):
+        self._all()
+        return dict.items(self)
+
+    def keys(self):
+        self._all()
+        return dict.keys(self)
+
+    def values(self):
+        self._all()
+        return dict.values(self)
+
+    def __iter__(self):
+        self._all()
+        return dict.__iter__(self)
+
+    def copy(self):
+        self._all()
+        return dict(self)
+
+
+# keyword arguments of library functions that have no influence on the abstract value (stated one by one)
+NATIVE_KW_IGNORED = {
+    'warnings.warn': {'stacklevel'},
+    'numpy.array': {'copy'}, 'numpy.asarray': {'copy'},
+    'numpy.isclose': {'equal_nan'}, 'numpy.allclose': {'equal_nan'},
+    'scipy.optimize.minimize': None,       # the solver is uninterpreted: rules look at what it is given
+    'scipy.optimize.curve_fit': None,
+    'numpy.linalg.lstsq': None,
+    'pandas.read_excel': None,
+    'yaml.dump': None,
+}
+
+
 class _Return(Exception):
     def __init__(self, value):
         self.value = value
@@ -294,6 +385,8 @@ BUILTIN_EXC = {'RuntimeWarning', 'UserWarning', 'DeprecationWarning', 'Warning',
                'NameError'}
 
 
+PLACEHOLDER_LOG = []     # where a formatted text had no abstract spelling and was replaced by a placeholder
+HAZARD_LOG = []      # (kind, node, relpath): every hazard any interpreter of this process recorded (see main.py)
 VISITED = set()      # qualified names of every function of the analysed package that was interpreted in this process
 COVER = None         # development aid (tools/coverage.py): set of (module name, line) of the statements interpreted
 ARGCOVER = None      # development aid: (module name, function line) -> {parameter: set of values it was bound to}
@@ -335,6 +428,12 @@ def unit_table(repo):
 
 
 class Interp:
+    cuts = _hazard_property('cut')
+    hazards = _hazard_property('text')
+    dtype_hazards = _hazard_property('dtype')
+    replace_hazards = _hazard_property('replace')
+    underflow_hazards = _hazard_property('underflow')
+    re_hazards = _hazard_property('regex')
     def __init__(self, repo, domain=None, order=None, max_depth=32):
         self.repo = repo
         self.D = domain or nf.Domain()
@@ -363,6 +462,8 @@ class Interp:
         self.num_widths = {}          # repr(Rat) -> printed width of that number under %d / %.1f / str()
         self.cuts = []                # (node, text) operations that cut through a symbolic field
         self.hazards = []             # (node, text) substring tests whose outcome depends on user text
+        self.token_syms = {'units'}  # symbols that stand for a text left open by the rule (unit strings)
+        self.int_syms = set()        # symbols a rule declares to stand for Python ints (isinstance, np dtype)
         self.dtype_hazards = []      # stores of real values into buffers typed like a caller's container
         self.replace_hazards = []    # (node, old, field, remaining count): str.replace may reach into user text
         self.generic_point = False   # decide == of non-identical symbolic numbers as False (generic values)
@@ -478,6 +579,19 @@ class Interp:
                 else:
                     raise _RaisedExc(Raised('TypeError', fn))
         return env
+
+    def call_native(self, name, fr, args, kwargs, n):
+        """a modelled library function; every keyword argument must be one the model reads (or is listed as having no
+        influence), otherwise the construct is outside what is modelled"""
+        h = self.native[name]
+        if not kwargs or NATIVE_KW_IGNORED.get(name, ()) is None:
+            return h(self, fr, args, kwargs, n)
+        kw = KwSeen(kwargs)
+        out = h(self, fr, args, kw, n)
+        unread = set(dict.keys(kw)) - kw.seen - set(NATIVE_KW_IGNORED.get(name, ()))
+        if unread:
+            raise Unsupported('keyword argument(s) %s of %s are not modelled' % (sorted(unread), name), n)
+        return out
 
     def call_function(self, module, fn, args, kwargs, self_obj=None, owner=None, name=None, closure=None,
                       preset=None, frame_self=None):
@@ -638,9 +752,26 @@ class Interp:
                     raise _RaisedExc(Raised('KeyError'))
                 v = kwargs[a]
             if '{' in spec:
-                for kk, aa, _ in parse_format(spec):
-                    if kk == 'field':
-                        spec = spec.replace('{%s}' % aa, str(kwargs.get(aa, '')))
+                # a format spec computed from other arguments ('{:0{w}d}'): the nested fields are filled in first
+                for mm in re.finditer(r'\{([^{}]*)\}', spec):
+                    aa = mm.group(1)
+                    if aa == '':
+                        raise Unsupported('auto-numbered field inside a format spec: %r' % fmt)
+                    if aa.isdigit():
+                        if int(aa) >= len(args):
+                            raise _RaisedExc(Raised('IndexError'))
+                        nv = args[int(aa)]
+                    elif aa in kwargs:
+                        nv = kwargs[aa]
+                    else:
+                        raise _RaisedExc(Raised('KeyError'))
+                    if isinstance(nv, Rat) and nv.is_const() and nv.const_value().denominator == 1:
+                        nv = str(int(nv.const_value()))
+                    elif isinstance(nv, Rat) and nv.iszero():
+                        nv = '0'
+                    elif not (isinstance(nv, str) and nv not in self.sym_strings):
+                        raise Unsupported('format spec computed from a symbolic value: %r' % fmt)
+                    spec = spec.replace('{%s}' % aa, nv)
             out = out + self.format_piece(v, spec)
         return self.plain(out)
 
@@ -965,6 +1096,13 @@ class Interp:
                     r = False
                 return r if op == 'in' else not r
             raise Unsupported('comparison %s on abstract strings' % op, node)
+        # a symbol that stands for a text the rule leaves open (a unit string): its spelling is not known, so a test
+        # against a literal text is not decidable - the rule has to run the instance with concrete texts as well
+        for x_, y_ in ((a, b), (b, a)):
+            if isinstance(x_, Rat) and x_.is_monomial() and len(x_.atoms()) == 1 and \
+                    next(iter(x_.atoms())) in self.token_syms and x_.eq(Rat.atom(next(iter(x_.atoms())))):
+                if isinstance(y_, (str, SegStr)) or (op in ('in', 'not in') and x_ is a and isinstance(y_, (ListV, DictV))):
+                    raise Unsupported('comparison of the symbolic text %r with a literal' % (x_,), node)
         if op in ('==', '!=') and (isinstance(a, (DictV, Obj)) or isinstance(b, (DictV, Obj))):
             res = self.struct_eq(a, b)
             return res if op == '==' else not res
@@ -1059,12 +1197,29 @@ class Interp:
             return False
         if isinstance(v, str):
             return bool(v)
+        if isinstance(v, ListV) and getattr(v, 'is_array', False):
+            # numpy: an empty array is false, one element decides, several are ambiguous (ValueError)
+            if len(v) == 0:
+                return False
+            if len(v) == 1:
+                return self.truth(v.items[0], node)
+            raise _RaisedExc(Raised('ValueError', node))
         if isinstance(v, ListV):
             return len(v) > 0
         if isinstance(v, DictV):
             return len(v.d) > 0
+        if isinstance(v, Rat) and v.iszero():
+            return False
         if isinstance(v, Rat) and v.is_const():
             return v.const_value() != 0
+        if isinstance(v, Obj) and v.ci is not None:
+            for special in ('__bool__', '__len__'):
+                if self.repo.find_method(v.ci, special, missing_ok=True):
+                    r = self.call_method(v, special, [], {})
+                    if isinstance(r, Raised):
+                        raise _RaisedExc(r)
+                    return self.truth(r, node) if special == '__bool__' else self.truth(r, node)
+            return True
         if isinstance(v, Obj):
             return True
         if isinstance(v, SegStr):
@@ -1094,6 +1249,7 @@ class Frame:
 
     def exec_stmt(self, st):
         I = self.I
+        CUR_REL[0] = self.module.relpath
         if COVER is not None:
             COVER.add((self.module.name, st.lineno))
         if isinstance(st, ast.Expr):
@@ -1127,8 +1283,13 @@ class Frame:
                     raise _RaisedExc(Raised('TypeError', st))
                 return
             res = I.binop(_OPS[type(st.op)], cur, v)
-            if isinstance(cur, ListV) and isinstance(res, ListV) and isinstance(st.target, ast.Name) and \
-                    not getattr(cur, 'is_set', False):
+            if isinstance(cur, Elem) and isinstance(res, Elem) and type(cur) is Elem:
+                # a numpy vector (of unknown length) is updated in place: the object an attribute or another name
+                # refers to changes with it
+                cur.r = res.r
+                return
+            if isinstance(cur, ListV) and isinstance(res, ListV) and \
+                    isinstance(st.target, (ast.Name, ast.Attribute)) and not getattr(cur, 'is_set', False):
                 # lists and numpy arrays are updated in place: every other name bound to the object sees it
                 cur.items[:] = list(res.items)
                 sync_reshape(cur)
@@ -1879,6 +2040,7 @@ class Frame:
                 except Unsupported:
                     # same convention as str.format: text of a value that has no abstract spelling (a class, a
                     # function) is an opaque literal; it can only matter in messages
+                    PLACEHOLDER_LOG.append((CUR_REL[0], getattr(n, 'lineno', 0)))
                     out = out + '<formatted>'
             return I.plain(out)
         if isinstance(n, ast.Lambda):
@@ -2320,7 +2482,7 @@ class Frame:
             return I.opaque_funcs[dn](I, self, args, kwargs, n)
         if dn is not None and dn in I.native:
             args, kwargs = self.call_args(n)
-            return I.native[dn](I, self, args, kwargs, n)
+            return I.call_native(dn, self, args, kwargs, n)
         # super().m(...)
         if isinstance(f, ast.Attribute) and isinstance(f.value, ast.Call) \
                 and isinstance(f.value.func, ast.Name) and f.value.func.id == 'super':
@@ -2376,7 +2538,7 @@ class Frame:
             if qual in I.opaque_funcs:
                 return I.opaque_funcs[qual](I, self, args, kwargs, n)
             if fv.owner is None and fv.closure is None and qual in I.native:
-                return I.native[qual](I, self, args, kwargs, n)
+                return I.call_native(qual, self, args, kwargs, n)
             if isinstance(fv.self_obj, Obj) and fv.fn.name in fv.self_obj.opaque_methods:
                 return fv.self_obj.opaque_methods[fv.fn.name](I, fv.self_obj, args, kwargs)
             is_static = any(ast.unparse(d) in ('staticmethod',) for d in fv.fn.decorator_list)
@@ -2390,7 +2552,7 @@ class Frame:
         if isinstance(fv, Builtin):
             return builtin_call(I, self, fv.name, args, kwargs, n)
         if isinstance(fv, NativeRef):
-            return I.native[fv.name](I, self, args, kwargs, n)
+            return I.call_native(fv.name, self, args, kwargs, n)
         if isinstance(fv, BoundNative):
             return bound_native(I, self, fv, args, kwargs, n)
         if isinstance(fv, BoundOpaque):
@@ -2663,6 +2825,15 @@ def builtin_call(I, fr, name, args, kwargs, n):
             return C(1 if v else 0)
         if name == 'int' and isinstance(v, Rat) and v.is_const():
             return C(int(v.const_value()))         # truncation towards zero
+        if name == 'int' and isinstance(v, Rat) and not v.iszero():
+            if v.integer_coefficients() and all(a_ in I.int_syms for a_ in v.atoms()):
+                return v                            # an integer quantity (declared by the rule)
+            # truncation of a real quantity: a different number unless the quantity happens to be integral
+            nm = 'TRUNC{%r}' % (v,)
+            I.D.kind.setdefault(nm, 'trunc')
+            return Rat.atom(nm)
+        if name == 'int' and isinstance(v, (Elem, SumV)):
+            raise Unsupported('int() of a vector / sum of symbolic values', n)
         if isinstance(v, (Rat, Elem, SumV)):
             return v
         raise Unsupported('%s() of %r' % (name, v), n)
@@ -2788,7 +2959,17 @@ def builtin_call(I, fr, name, args, kwargs, n):
                     raise Unsupported('isinstance(np.ndarray) of a vector that may be a list or an array', n)
                 res = res or (isinstance(v, ListV) and bool(getattr(v, 'is_array', False)))
             elif tn in ('float', 'int'):
-                res = res or isinstance(v, Rat)
+                if isinstance(v, Rat):
+                    both = {'float', 'int'} <= {(y.name if isinstance(y, Builtin) else y) for y in ts}
+                    if both:
+                        res = True
+                    elif all(a_ in I.int_syms for a_ in v.atoms()) and v.atoms() and v.integer_coefficients():
+                        res = res or tn == 'int'        # a quantity the rule declared to be a Python int
+                    elif v.is_const() or v.iszero():
+                        # a literal number: 1 and 1. are the same abstract value
+                        raise Unsupported('isinstance(%s) of a number whose Python type is not tracked' % tn, n)
+                    else:
+                        res = res or tn == 'float'      # symbolic quantities stand for Python floats (assumption)
             elif tn == 'Number':
                 res = res or isinstance(v, Rat) or (isinstance(v, Obj) and 'Number' in v.isa)
             elif tn == 'bool':
@@ -2926,6 +3107,8 @@ def builtin_call(I, fr, name, args, kwargs, n):
         items = v.items if isinstance(v, ListV) else (list(v.d.keys()) if isinstance(v, DictV) else None)
         rev = bool(kwargs.get('reverse', False))
         if items is not None and all(isinstance(x, str) for x in items) and set(kwargs) <= {'reverse'}:
+            if any(x in I.sym_strings for x in items) and len(items) > 1:
+                raise Unsupported('sorted() of texts whose spelling is symbolic', n)
             return ListV(sorted(items, reverse=rev))
         if items is not None and all(isinstance(x, Rat) for x in items) and set(kwargs) <= {'reverse'}:
             order_ = list(range(len(items)))
@@ -3164,6 +3347,7 @@ def bound_native(I, fr, bn, args, kwargs, n):
                 return b.format(*args)
             except (IndexError, KeyError, ValueError):
                 pass
+        PLACEHOLDER_LOG.append((CUR_REL[0], getattr(n, 'lineno', 0)))
         return '<formatted>'
     if isinstance(b, str) and b not in I.sym_strings and name in (
             'lower', 'upper', 'strip', 'lstrip', 'rstrip', 'isdigit', 'isalpha', 'isspace', 'isalnum', 'title',
@@ -3209,6 +3393,7 @@ def abstract_str_method(I, fr, b, name, args, kwargs, n):
         try:
             return I.format(b, args, kwargs)
         except Unsupported:
+            PLACEHOLDER_LOG.append((CUR_REL[0], getattr(n, 'lineno', 0)))
             return '<formatted>'
     if name == 'join':
         if sym:
@@ -3372,11 +3557,20 @@ def _vec_norm(v):
 
 def _np_array(I, fr, args, kwargs, n):
     v = _vec_norm(_arg(args, kwargs, 0, 'object'))
+    tag = _dtype_tag(_arg(args, kwargs, 1, 'dtype', None))
+    if tag is not None and tag != 'float':
+        # conversion to an integer (or other) element type changes the values: not modelled element by element
+        def integral(x):
+            if isinstance(x, ListV):
+                return all(integral(y) for y in x.items)
+            return isinstance(x, Rat) and (x.iszero() or (x.is_const() and x.const_value().denominator == 1) or
+                                           (x.integer_coefficients() and all(a_ in I.int_syms for a_ in x.atoms())))
+        if not integral(v):
+            raise Unsupported('np.array(..., dtype=%s) of values that are not known to be integral' % tag, n)
     if isinstance(v, ListV):
         # list of Elem rows -> Elem of ListV row (2-D array with unknown axis 0)
         r = ListV(list(v.items))
         r.is_array = True
-        tag = _dtype_tag(_arg(args, kwargs, 1, 'dtype', None))
         if tag is not None:
             r.dtype = tag
         elif getattr(v, 'dtype', None) is not None:
@@ -3894,6 +4088,7 @@ def _itertools_repeat(I, fr, args, kwargs, n):
 
 def _np_isclose(I, fr, args, kwargs, n):
     a, b = args[0], args[1]
+    kwargs.get('rtol'), kwargs.get('atol')          # both tolerances are part of the model (read below when they matter)
     if isinstance(a, Rat) and isinstance(b, Rat):
         if a.eq(b):
             return True
@@ -4247,9 +4442,13 @@ def _np_atleast_1d(I, fr, args, kwargs, n):
 def _np_full_like(I, fr, args, kwargs, n):
     a = _arg(args, kwargs, 0, 'a')
     fill = _arg(args, kwargs, 1, 'fill_value')
+    dt = _arg(args, kwargs, 2, 'dtype', None)
     if isinstance(a, ListV):
         r = ListV([fill for _ in a.items])
         r.is_array = True
+        # element type: the one asked for, else that of the prototype (a caller's container may hold integers)
+        tag = _dtype_tag(dt)
+        r.dtype = tag if tag is not None else getattr(a, 'dtype', 'caller')
         return r
     if isinstance(a, Elem):
         return Elem(fill)
@@ -4391,9 +4590,17 @@ def _np_where(I, fr, args, kwargs, n):
 def _np_full(I, fr, args, kwargs, n):
     shape = _arg(args, kwargs, 0, 'shape')
     fill = _arg(args, kwargs, 1, 'fill_value')
+    tag = _dtype_tag(_arg(args, kwargs, 2, 'dtype', None))
+    if tag is None and isinstance(n, ast.Call):
+        # without dtype the element type is that of the fill value: an integer literal gives an integer array
+        fnode = n.args[1] if len(n.args) > 1 else next((k_.value for k_ in n.keywords if k_.arg == 'fill_value'), None)
+        if isinstance(fnode, ast.Constant) and isinstance(fnode.value, int) and not isinstance(fnode.value, bool):
+            tag = 'int'
     if isinstance(shape, Rat) and shape.is_const():
         r = ListV([fill] * _as_int(shape, n))
         r.is_array = True
+        if tag is not None:
+            r.dtype = tag
         return r
     if isinstance(shape, Rat):
         return Elem(fill)           # a vector of symbolic length, every entry the same value
